@@ -25,17 +25,30 @@ DRIVER = "drv_deploy"
 
 # ---------------------------------------------------------------- builds
 
+def hook_names(path):
+    """exported functions, methods and types a hook file declares"""
+    src = open(path).read()
+    return set(re.findall(r"^func (?:\([^)]*\) )?([A-Z]\w*)", src, re.M)) | set(re.findall(r"^type ([A-Z]\w*)", src, re.M))
+
+
 def overlay_args():
     """deploy/verif_export.go (build tag verif, add-only) exports the unexported helpers. When the repository under test
-    does not carry it (yet), the file kept in /verif/hooks is laid over the tree for the harness build only."""
+    does not carry it, or carries an earlier version that lacks a wrapper the harness needs, the file kept in /verif/hooks
+    is laid over the tree for the harness build only."""
     repo = os.path.realpath(C.REPO)
-    if os.path.exists(os.path.join(repo, HOOK_REL)):
-        return [], "hook file present in the repository"
+    rf = os.path.join(repo, HOOK_REL)
+    if os.path.exists(rf):
+        missing = hook_names(HOOK_SRC) - hook_names(rf)
+        if not missing:
+            return [], "hook file present in the repository"
+        why = "the repository's hook file lacks %s: " % ", ".join(sorted(missing))
+    else:
+        why = ""
     os.makedirs(C.WORK, exist_ok=True)
     ov = os.path.join(C.WORK, "deploy-overlay%s.json" % C.repo_tag())
     with open(ov, "w") as f:
-        json.dump({"Replace": {os.path.join(repo, HOOK_REL): HOOK_SRC}}, f)
-    return ["-overlay", ov], "hook file laid over the tree with go build -overlay (from hooks/deploy_verif_export.go)"
+        json.dump({"Replace": {rf: HOOK_SRC}}, f)
+    return ["-overlay", ov], why + "hook file laid over the tree with go build -overlay (from hooks/deploy_verif_export.go)"
 
 
 def build(pkg):
@@ -73,7 +86,7 @@ def corpus_split(pid):
             if not f.endswith(".ops"):
                 continue
             txt = open(os.path.join(d, f)).read()
-            (scheds if re.search(r"^op (deploy|boot) ", txt, re.M) else helpers).append(os.path.join(d, f))
+            (scheds if re.search(r"^op (deploy|boot|upgrade) ", txt, re.M) else helpers).append(os.path.join(d, f))
     return helpers, scheds
 
 
@@ -253,6 +266,7 @@ def finish(pid, spec, tier, seed, t0, audit, runs, jobs, nviol, notes, extra):
                                   boot_schedules_compared_with_model=node["stats"].get("op.boot", 0)),
             execution=dict(level="validation by execution of the real deploy.Deploy on an in-process chain (sampling of schedules, not proof)",
                            deploy_runs=node["stats"].get("op.deploy", 0), converged=node["stats"].get("out.deploy.converged", 0),
+                           upgrade_runs=node["stats"].get("op.upgrade", 0), upgrade_converged=node["stats"].get("out.upgrade.converged", 0),
                            committee_sizes=sorted(int(k[len("out.deploy.n"):]) for k in node["stats"] if re.fullmatch(r"out\.deploy\.n\d+", k))),
         ),
     )
